@@ -242,8 +242,51 @@ class Fn2(c2lean.Fn):
         self.rmw = []              # write buffers that are also read: extra `buf0` parameter
         self.given = []            # struct out-params tested with `if (meta)`
         self.struct_outs = {}      # struct pointer name -> [field,…] in order of first appearance
-        self.uses_fuel = any(has_kind(self.body, k) for k in LOOPS) or self.calls_fuel(self.body)
+        self.reclassify_passed_outs()
+        self.uses_fuel = self.has_real_loop(self.body) or self.calls_fuel(self.body)
         self.scan_struct_outs()
+
+    def reclassify_passed_outs(self):
+        """a pointer parameter that is only handed on to translated callees as THEIR out-parameter is an out-parameter"""
+        for nm in list(self.write_bufs):
+            roles = []
+
+            def walk(n, in_call=None, argpos=None):
+                if not isinstance(n, dict):
+                    return
+                if n.get("kind") == "CallExpr":
+                    callee = self.tr.done.get(callee_name(n))
+                    for i, a in enumerate(n["inner"][1:]):
+                        walk(a, callee, i)
+                    return
+                if n.get("kind") == "DeclRefExpr" and n.get("referencedDecl", {}).get("name") == nm:
+                    if in_call is not None and argpos is not None and argpos < len(in_call.params) and \
+                            in_call.params[argpos]["name"] in in_call.out_params:
+                        roles.append("out")
+                    else:
+                        roles.append("other")
+                    return
+                for c in n.get("inner", []) or []:
+                    walk(c, in_call if n.get("kind") in ("ImplicitCastExpr", "ParenExpr") else None,
+                         argpos if n.get("kind") in ("ImplicitCastExpr", "ParenExpr") else None)
+
+            walk(self.body)
+            if roles and all(r == "out" for r in roles):
+                self.write_bufs.remove(nm)
+                self.out_params.append(nm)
+
+    def has_real_loop(self, n):
+        if not isinstance(n, dict):
+            return False
+        k = n.get("kind")
+        if k in ("ForStmt", "WhileStmt"):
+            return True
+        if k == "DoStmt":
+            c = skip_casts(n["inner"][1])
+            if not (c.get("kind") == "IntegerLiteral" and int(c["value"]) == 0) or \
+                    has_kind(n["inner"][0], "BreakStmt") or has_kind(n["inner"][0], "ContinueStmt"):
+                return True
+        return any(self.has_real_loop(c) for c in n.get("inner", []) or [])
 
     # ------------------------------------------------------------------ classification helpers
     def calls_fuel(self, node):
@@ -441,6 +484,17 @@ class Fn2(c2lean.Fn):
 
     def call_expr(self, n, env, as_stmt=False):
         cn = callee_name(n)
+        if cn in ("__builtin_saddll_overflow", "__builtin_saddl_overflow"):
+            a, b, r = (self.expr(x, env) for x in n["inner"][1:])
+            if r.addr_of is None:
+                raise Unsupported(f"{cn} whose result is not stored in a local")
+            t64 = Ty("i", 64)
+            sa, sb = self.conv(a, t64).s, self.conv(b, t64).s
+            cur = env.vars[r.addr_of]
+            nm = env.fresh(r.addr_of, "Int")
+            env.prelets.append(f"let {nm} := (sx 64 (({sa} + {sb}) % (2 ^ 64 : Int)).toNat)")
+            env.vars[r.addr_of] = V(nm, cur.ty if cur.ty.kind == "i" else t64)
+            return V(f"(({sa} + {sb} < -(2 ^ 63 : Int)) ∨ ({sa} + {sb} > (2 ^ 63 : Int) - 1))", Ty("i", 32), prop=True)
         args = [self.expr(a, env) for a in n["inner"][1:]]
         callee = self.tr.done.get(cn)
         if callee is None:
@@ -461,9 +515,12 @@ class Fn2(c2lean.Fn):
                 else:
                     texts.append(buf if off == 0 else f"(fun i => {buf} ({off} + i))")
             elif nm in callee.out_params:
-                if a.addr_of is None:
+                if a.addr_of is None and a.ptr is not None and a.ptr[0] in self.out_params and a.ptr[1] == 0:
+                    outs.append(("@out", a.ptr[0]))           # this function's own out-parameter handed on
+                elif a.addr_of is None:
                     raise Unsupported("out-parameter argument that is not &local")
-                outs.append(a.addr_of)
+                else:
+                    outs.append(a.addr_of)
             elif nm in callee.write_bufs:
                 if a.ptr is None or a.ptr[0] not in self.write_bufs:
                     raise Unsupported("write-buffer argument that is not one of this function's write buffers")
@@ -500,6 +557,13 @@ class Fn2(c2lean.Fn):
 
         base = 1 if callee.ret.kind != "void" else 0
         for j, local in enumerate(outs):
+            if isinstance(local, tuple):
+                prev = env.outs.get(local[1])
+                prev_t = "none" if prev is None else (prev[1:] if prev.startswith("?") else f"some {prev}")
+                nm2 = env.fresh(local[1] + "_opt", "Option Nat")
+                env.prelets.append(f"let {nm2} := (({proj(base + j)}).orElse fun _ => {prev_t})")
+                env.outs[local[1]] = "?" + nm2
+                continue
             cur = env.vars[local]
             nm2 = env.fresh(local, lty(cur.ty))
             env.prelets.append(f"let {nm2} := (({proj(base + j)}).getD {cur.s})")
@@ -569,6 +633,9 @@ class Fn2(c2lean.Fn):
             return self.block(list(inner) + ([("pop", saved)] if saved and rest else []) + rest, env, ctx)
         if k == "NullStmt":
             return self.block(rest, env, ctx)
+        if k == "DoStmt" and const_int(self.expr_text_safe(inner[1])) == 0 and \
+                not has_kind(inner[0], "BreakStmt") and not has_kind(inner[0], "ContinueStmt"):
+            return self.block([inner[0]] + rest, env, ctx)          # `do { … } while (0)`: the body, once
         if k in LOOPS:
             return self.loop(s, rest, env, ctx)
         if k == "IfStmt":
@@ -594,6 +661,12 @@ class Fn2(c2lean.Fn):
         env.pending, env.prelets = [], []
         follow = self.block(rest, env, ctx)
         return self.bind(env, ctx, pend, lets, (text + follow) if text else follow, pre_text=True)
+
+    def expr_text_safe(self, n):
+        n = skip_casts(n)
+        if n.get("kind") == "IntegerLiteral":
+            return str(n["value"])
+        return "?"
 
     def bind(self, env, ctx, pend, lets, text, pre_text=False):
         """prefix `text` with the bindings its expressions asked for"""
@@ -820,7 +893,9 @@ class Fn2(c2lean.Fn):
         inner = s["inner"]
         then = inner[1]
         els = inner[2] if len(inner) > 2 else None
-        escapes = any(has_kind(then, x) for x in ESCAPES) or (els is not None and any(has_kind(els, x) for x in ESCAPES)) \
+        esc = ("ReturnStmt", "BreakStmt", "ContinueStmt", "GotoStmt")
+        escapes = any(has_kind(then, x) for x in esc) or (els is not None and any(has_kind(els, x) for x in esc)) \
+            or self.has_real_loop(then) or (els is not None and self.has_real_loop(els)) \
             or self.calls_fuel(then) or (els is not None and self.calls_fuel(els))
         if not escapes:
             env.pending, env.prelets = [], []
@@ -1270,7 +1345,35 @@ class Translator2(Translator):
 
 
 # (output module, [(C file relative to src — or harness file —, C function, Lean name)])
-TARGETS2 = {}
+TAGGED_IMPORTS = ("varintTagged.c:varintTaggedLen:taggedLen:legacy,varintTagged.c:varintTaggedPut64:taggedPut64:legacy,"
+                  "varintTagged.c:varintTaggedGet:taggedGet:legacy")
+TARGETS2 = {
+    "CCSimple": [
+        ("varintChainedSimple.c", "varintChainedSimpleEncode64", "csEncode64"),
+        ("varintChainedSimple.c", "varintChainedSimpleLength", "csLength"),
+        ("varintChainedSimple.c", "varintChainedSimpleDecode64", "csDecode64"),
+    ],
+    "CBits": [
+        ("varintBitstream.h", "varintBitstreamSet", "bitstreamSet"),
+        ("varintBitstream.h", "varintBitstreamGet", "bitstreamGet"),
+    ],
+    "CRLE": [
+        ("import", "CTagged", TAGGED_IMPORTS),
+        ("varintRLE.c", "varintRLEAnalyze", "rleAnalyze"),
+        ("varintRLE.c", "varintRLEEncode", "rleEncode"),
+        ("varintRLE.c", "varintRLEGetRunCount", "rleGetRunCount"),
+    ],
+    "CTaggedAdd": [
+        ("import", "CTagged", TAGGED_IMPORTS),
+        ("varintTagged.c", "varintTaggedGet64", "taggedGet64"),
+        ("varintTagged.c", "varintTaggedAdd", "taggedAdd"),
+        ("varintTagged.c", "varintTaggedAddNoGrow", "taggedAddNoGrow"),
+        ("varintTagged.c", "varintTaggedAddGrow", "taggedAddGrow"),
+    ],
+    "CAdaptive": [
+        ("varintAdaptive.c", "varintAdaptiveCheckSorted", "adaptiveCheckSorted"),
+    ],
+}
 
 
 def generate(module, targets=None):
@@ -1286,7 +1389,8 @@ def generate(module, targets=None):
             continue
         body += tr.function(resolve(cf), fn, ln) + "\n"
     head = "".join(f"import Varint.Gen.{m}\n" for m in imports)
-    return head + c2lean.PRELUDE.replace(c2lean.SX_DEF, "") + body + "end Varint.Gen.C\n"
+    return (head + "set_option linter.unusedVariables false\n" + c2lean.PRELUDE.replace(c2lean.SX_DEF, "") + body +
+            "end Varint.Gen.C\n")
 
 
 def resolve(c):
